@@ -47,6 +47,9 @@ PosCores(d, seed) ==
 OdeIsland(c) ==
     LET d == Len(c.dims)
         A == IF c.op = "markov" THEN GenCores(d, c.seed)
+             \* herm: G + G^H with a complex G: the step matrices I - hA of the implicit schemes are complex Hermitian
+             \* (what a solver that exploits the structure of its micro systems has to tell apart from complex symmetric)
+             ELSE IF c.op = "herm" THEN LET G == FillCores("complex", c.seed, OpShape(c.dims, 1)) IN AddCores(G, AdjCores(G))
              ELSE FillCores(IF c.cplx THEN "complex" ELSE "real", c.seed, OpShape(c.dims, c.rg))
         \* seed 2: real-valued initial values also for complex operators (mixed dtypes)
         x0 == IF c.op = "markov" THEN PosCores(d, c.seed) ELSE FullRankCores(c.dims, c.rx, c.seed + 1, c.cplx /\ c.seed # 2)
@@ -84,6 +87,8 @@ OdeConfigs ==
     \cup {[dims |-> [k \in 1..d |-> 2], op |-> "markov", rg |-> 2, cplx |-> FALSE, seed |-> seed, rx |-> MaxRanks([k \in 1..d |-> 2]),
            scheme |-> sch, m |-> 1, steps |-> st] :
           d \in 1..3, seed \in {1, 2}, sch \in {"explicit_euler", "implicit_euler", "trapezoidal_rule"}, st \in StepLists}
+    \cup {[dims |-> dims, op |-> "herm", rg |-> 2, cplx |-> TRUE, seed |-> seed, rx |-> MaxRanks(dims), scheme |-> sch, m |-> 1, steps |-> st] :
+          dims \in {<<2, 2>>, <<2, 3, 2>>}, seed \in {1, 2}, sch \in {"implicit_euler", "trapezoidal_rule"}, st \in {<<7>>, <<6, 8>>}}
     \* hod on Markov generators: the default normalisation of hod is the Manhattan norm (sum of the entries)
     \cup {[dims |-> [k \in 1..d |-> 2], op |-> "markov", rg |-> 2, cplx |-> FALSE, seed |-> seed, rx |-> MaxRanks([k \in 1..d |-> 2]),
            scheme |-> "hod", m |-> m, steps |-> st] : d \in 1..2, seed \in {1, 2}, m \in 1..2, st \in {<<7>>, <<7, 7, 7>>}}
